@@ -279,16 +279,18 @@ impl Prop for C05 {
         // of text when the final fragment is decoded) - beyond them it may reject (C18)
         let mut total: Vec<u8> = Vec::new();
         let mut decode_final = false;
+        let mut final_fill = 0u8;
         for op in &sc.ops {
             if let Op::Line(l) = op {
                 if let (Role::Heal { .. }, Some(s)) = (&l.role, &l.sent) {
                     total.extend_from_slice(&s.piece);
                     decode_final = l.decode;
+                    final_fill = s.fill;
                 }
             }
         }
         if total.len() <= super::c18::CAP_PAYLOAD
-            && !(decode_final && super::c18::decode_capacity_exceeded(&total).is_some())
+            && !(decode_final && super::c18::decode_capacity_exceeded(&total, final_fill).is_some())
         {
             return judge_build(sc, Build::None, &mut None);
         }
